@@ -13,7 +13,7 @@ from .c16 import SOILS15
 
 PID = "C18"
 LEVEL = "model_checking"
-WITNESSES = ["season_restart_checked", "deepened_profile", "not_deepened", "layered_soil", "texture_soil", "depth_interpolation", "thick_compartments_only", "non_uniform_thickness", "soil_object_reused", "independent_layer_map", "water_table_with_percentage_request"]
+WITNESSES = ["texture_layer_recomputed", "season_restart_checked", "deepened_profile", "not_deepened", "layered_soil", "texture_soil", "depth_interpolation", "thick_compartments_only", "non_uniform_thickness", "soil_object_reused", "independent_layer_map", "water_table_with_percentage_request"]
 NONTRIVIAL = ["deepened_profile", "layered_soil", "texture_soil", "depth_interpolation", "thick_compartments_only", "non_uniform_thickness", "soil_object_reused"]
 
 ZMAX = [0.5, 0.6, 1.0, 1.3, 1.5, 1.7, 1.8, 2.0, 2.3, 3.0]
@@ -42,6 +42,9 @@ def texture_soils():
         if sand + clay > 100:
             continue
         out[f"t{sand}_{clay}_{om}"] = {"type": "custom", "texture": [[0.5, sand, clay, om, 100], [3.5, max(5, sand - 5), clay, om, 80]]}
+    # the almost-pure-silt corner (sand + clay of a percent or less) and whole-number neighbours
+    for sand, clay in ((0.6, 0.4), (0, 1), (0.5, 0.5), (1, 0), (1, 1), (2, 1)):
+        out[f"t{sand}_{clay}_2_silt"] = {"type": "custom", "texture": [[0.5, sand, clay, 2.0, 100], [3.5, sand, clay, 1.0, 100]]}
     return out
 
 
@@ -95,7 +98,7 @@ def all_soils(tier, lattice=True):
     soils.update(CUSTOM)
     tx = texture_soils()
     if tier == "quick":
-        tx = dict(list(tx.items())[::4])
+        tx = dict([kv for i, kv in enumerate(tx.items()) if i % 4 == 0 or kv[0].endswith("_silt")])
     soils.update(tx)
     return soils
 
@@ -230,6 +233,21 @@ def run(scn):
         hit("layered_soil")
     if ss.get("texture"):
         hit("texture_soil")
+        # the layers' hydraulic values against the published pedotransfer equations, recomputed here from the percentages the user gave
+        # (the model rounds theta to 0.001 and Ksat to 0.1 mm/day)
+        from ..refmodels import saxton_rawls
+
+        for li, row in enumerate(ss["texture"]):
+            if (li + 1) not in props:
+                continue
+            rwp, rfc, rs, rks = saxton_rawls(float(row[1]), float(row[2]), float(row[3]))
+            got = props[li + 1]
+            for k, rv, tol in (("th_wp", rwp, 6e-4), ("th_fc", rfc, 6e-4), ("th_s", rs, 6e-4), ("Ksat", rks, 0.06 + 1e-3 * abs(rks))):
+                if not abs(float(got[k]) - rv) <= tol:
+                    bad("texture-layer-follows-the-pedotransfer-function", {"layer": li + 1, "property": k, "value": float(got[k]), "sand_pct": row[1], "clay_pct": row[2], "om_pct": row[3]},
+                        {"expected": rv, "tol": tol}, prop=k)
+                    break
+            hit("texture_layer_recomputed")
     if "Depth" in scn["iwc"]:
         hit("depth_interpolation")
     if user_dz.min() >= 0.25:
